@@ -8,7 +8,18 @@ import (
 
 func c07L2TP(entry string, n []uint64, f []string) string {
 	data := c07Arg(f, 0)
+	prefix := []string{}
 	switch entry {
+	case "bldl2": // bldl2 <T,L,S,O,P,ver,tid,sid,ns,nr,offsz> <body>: AppendTo(nil, len(body)) ++ body fed to Parse
+		h := &Header{IsControl: c07Num(n, 0) != 0, HasLength: c07Num(n, 1) != 0, HasSequence: c07Num(n, 2) != 0,
+			HasOffset: c07Num(n, 3) != 0, Priority: c07Num(n, 4) != 0, Version: uint8(c07Num(n, 5)),
+			TunnelID: uint16(c07Num(n, 6)), SessionID: uint16(c07Num(n, 7)), Ns: uint16(c07Num(n, 8)),
+			Nr: uint16(c07Num(n, 9)), OffsetSize: uint16(c07Num(n, 10))}
+		out := h.AppendTo(nil, len(data))
+		out = append(out, data...)
+		data = append(make([]byte, 0, len(out)), out...)
+		prefix = []string{c07TB(data)}
+		fallthrough
 	case "l2hdr":
 		h, p, err := Parse(data)
 		switch err {
@@ -22,10 +33,18 @@ func c07L2TP(entry string, n []uint64, f []string) string {
 		default:
 			return "err 9"
 		}
-		return c07Ok(c07Bool(h.IsControl), c07Bool(h.HasLength), c07Bool(h.HasSequence), c07Bool(h.HasOffset),
+		return c07Ok(append(prefix, c07Bool(h.IsControl), c07Bool(h.HasLength), c07Bool(h.HasSequence), c07Bool(h.HasOffset),
 			c07Bool(h.Priority), c07U(uint64(h.Version)), c07U(uint64(h.Length)), c07U(uint64(h.TunnelID)),
 			c07U(uint64(h.SessionID)), c07U(uint64(h.Ns)), c07U(uint64(h.Nr)), c07U(uint64(h.OffsetSize)),
-			c07U(uint64(h.HeaderLen)), c07TB(p))
+			c07U(uint64(h.HeaderLen)), c07TB(p))...)
+	case "bldavp": // bldavp <m,vendor,type,...> <value> ...: AppendAVP output fed to ParseAVPs
+		var out []byte
+		for i := 0; 3*i+2 < len(n); i++ {
+			out = AppendAVP(out, n[3*i] != 0, false, uint16(n[3*i+1]), uint16(n[3*i+2]), c07Arg(f, i))
+		}
+		data = append(make([]byte, 0, len(out)), out...)
+		prefix = []string{c07TB(data)}
+		fallthrough
 	case "l2avp":
 		avps, err := ParseAVPs(data)
 		switch err {
@@ -43,7 +62,7 @@ func c07L2TP(entry string, n []uint64, f []string) string {
 		default:
 			return "err 9"
 		}
-		toks := []string{c07U(uint64(len(avps)))}
+		toks := append(prefix, c07U(uint64(len(avps))))
 		for _, a := range avps {
 			toks = append(toks, c07Bool(a.Mandatory), c07Bool(a.Hidden), c07U(uint64(a.VendorID)), c07U(uint64(a.Type)), c07TB(a.Value))
 		}
